@@ -28,10 +28,6 @@ def main():
     prop = meta["property"]
     patch = os.path.join(d, "patch.diff")
     res = dict(name=a.name, property=prop, time=time.strftime("%Y-%m-%d %H:%M:%S"))
-    rc, out = sh("git status --porcelain", cwd=REPO)
-    if out.strip():
-        print("refusing: /repo has uncommitted changes:\n" + out)
-        return 2
     if not a.skip_demo:
         wt = f"/tmp/evalseed_{a.name}_{os.getpid()}"
         sh(f"git worktree add -q {wt} HEAD", cwd=REPO)
@@ -46,9 +42,14 @@ def main():
             sh(f"git worktree remove --force {wt}", cwd=REPO)
         print("demo:", "OK (passes without, fails with)" if res["demo_ok"] else f"NOT CONFIRMED {res['demo']}")
     checks = [c["property_id"] for c in json.load(open(os.path.join(ROOT, "MANIFEST.json")))["checks"]] if a.all else (a.checks.split(",") if a.checks else [prop])
-    rc, out = sh(f"git apply {patch}", cwd=REPO)
+    # the checks run against a scratch worktree of /repo with the patch applied (VERIF_REPO; ./check puts it first
+    # on PYTHONPATH), which is the same tree as `git -C /repo apply patch.diff` gives, without touching /repo
+    evalrepo = f"/tmp/evalrepo_{a.name}_{os.getpid()}"
+    sh(f"git worktree add -q {evalrepo} HEAD", cwd=REPO)
+    rc, out = sh(f"git apply {patch}", cwd=evalrepo)
     if rc != 0:
-        print("patch does not apply to /repo:", out)
+        print("patch does not apply:", out)
+        sh(f"git worktree remove --force {evalrepo}", cwd=REPO)
         return 2
     caught = {}
     try:
@@ -56,7 +57,7 @@ def main():
             t0 = time.time()
             ev = os.path.join(ROOT, ".work", "evidence_seeded")
             os.makedirs(ev, exist_ok=True)
-            rc, out = sh(f"./check {c} --tier {a.tier}", cwd=ROOT, timeout=7200, env=dict(os.environ, VERIF_EVIDENCE_DIR=ev))
+            rc, out = sh(f"./check {c} --tier {a.tier}", cwd=ROOT, timeout=7200, env=dict(os.environ, VERIF_EVIDENCE_DIR=ev, VERIF_REPO=evalrepo))
             lines = [l for l in out.splitlines() if l.startswith("VIOLATION") or l.startswith("KNOWN-FINDING") or l.startswith("INFRA") or l.startswith("[C")]
             caught[c] = dict(rc=rc, seconds=round(time.time() - t0, 1), lines=[l[:300] for l in lines][:8])
             rep = [l.split("replay=")[1].split()[0] for l in lines if l.startswith("VIOLATION") and "replay=" in l]
@@ -68,9 +69,7 @@ def main():
                     pass
             print(c, "rc=", rc, "VIOLATION" if rc == 1 else "", caught[c].get("first_replay", ""))
     finally:
-        sh("git checkout -- .", cwd=REPO)
-        rc, out = sh("git status --porcelain", cwd=REPO)
-        assert not out.strip(), out
+        sh(f"git worktree remove --force {evalrepo}", cwd=REPO)
     res["checks"] = caught
     res["caught_by"] = [c for c, v in caught.items() if v["rc"] == 1]
     res["tier"] = a.tier
